@@ -1010,7 +1010,7 @@ def build_unit(unit, repo, variant=None, isolate=()):
         if spec.get('fragment'):
             # a statement fragment of a function that cannot be lifted as a whole (generic over serde
             # traits): the matched source text is placed verbatim inside the given wrapper function
-            ms = list(re.finditer(spec['fragment'], text))
+            ms = list(re.finditer(spec['fragment'], text, re.S if 'S' in spec.get('fragment_flags', '') else 0))
             if len(ms) != 1:
                 raise Undecided('%s: fragment pattern matches %d times' % (item_id, len(ms)))
             frag = ms[0].group(0)
